@@ -1428,6 +1428,7 @@ func (f *Frame) checkAtCall(instr ssa.Instruction, c *ssa.CallCommon, st *State)
 		if !strings.Contains(src, ac.Match) {
 			continue
 		}
+		g.atReturnUsed["at-call:"+ac.Match+"::"+ac.Clause.Text]++
 		blk := instr.Block()
 		idx := 0
 		for i, in := range blk.Instrs {
@@ -1437,6 +1438,18 @@ func (f *Frame) checkAtCall(instr ssa.Instruction, c *ssa.CallCommon, st *State)
 		}
 		ev := &Eval{g: g, st: st, old: f.entry, fn: f.fn, pos: instr.Pos(), vars: map[string]Val{}, pkg: pkgOf(f.fn)}
 		ev.lookup = func(name string) (Val, bool) { return f.varBefore(blk, idx, name, instr.Pos(), st) }
+		// arg0, arg1, ...: the operands of the call as go/ssa lists them (arg0 is the receiver of a static
+		// method call); recv: the receiver of an interface method call
+		for i, a := range c.Args {
+			v := f.val(a, a.Type())
+			v.Typ = a.Type()
+			ev.vars[fmt.Sprintf("arg%d", i)] = v
+		}
+		if c.IsInvoke() {
+			v := f.val(c.Value, c.Value.Type())
+			v.Typ = c.Value.Type()
+			ev.vars["recv"] = v
+		}
 		t, err := ev.evalBool(ac.Clause.Expr)
 		if err != nil {
 			g.specError(ct, ac.Clause, err)
@@ -1457,6 +1470,22 @@ func (f *Frame) varBefore(blk *ssa.BasicBlock, idx int, name string, pos token.P
 				return f.val(p, p.Type()), true
 			}
 		}
+	}
+	if name == "__iter" {
+		// the range counter of the nearest loop whose header dominates this point
+		for b := blk; b != nil; b = b.Idom() {
+			if f.loops[b] == nil {
+				continue
+			}
+			for _, in := range b.Instrs {
+				if p, ok := in.(*ssa.Phi); ok && strings.HasPrefix(p.Comment, "range") {
+					if _, have := f.vals[p]; have {
+						return f.val(p, p.Type()), true
+					}
+				}
+			}
+		}
+		return Val{}, false
 	}
 	obj := f.g.ctx.scopeLookup(f.fn, pos, name)
 	cands := map[ssa.Value]bool{}
